@@ -4,7 +4,7 @@ from coqterm import B, Rec
 import statelib as L
 from statelib import (C_LAUNCHED, C_BUILT, C_GUARD_WAIT, C_EXTENDED, C_FAILED, C_CLOSED,
                       S_NEW, S_REMAP, S_SENTCONNECT, S_SUCCEEDED, S_DETACHED, S_FAILED, S_CLOSED)
-from drive_C07 import Walker
+from drive_C07 import Walker, enumerate_histories
 
 CMETH = ['circuit_new', 'circuit_launched', 'circuit_extend', 'circuit_built', 'circuit_closed', 'circuit_failed']
 SMETH = ['stream_new', 'stream_succeeded', 'stream_attach', 'stream_detach', 'stream_closed', 'stream_failed']
@@ -466,7 +466,7 @@ class P(core.Prop):
     spec_mod = 'Check.C08_spec'
     extra_imports = ''
     quick_n = 1200
-    thorough_n = 10000
+    thorough_n = 16000
     shard = 200
     design_ref = '5/C08'
     rule = ('C07\'s random walks on Tor\'s view (<= 4 circuit and <= 4 stream ids, all statuses, id reuse, circuits closing '
@@ -506,6 +506,8 @@ class P(core.Prop):
 
     def kind(self, case, obs):
         ops = all_ops(case)
+        if 'exhaustive' in (case.get('tags') or []):
+            return 'exhaustive/' + '+'.join(sorted(set(o[0] for o in ops if o[0] != 'ev')))
         n = len(ops)
         size = 'n<15' if n < 15 else 'n<40' if n < 40 else 'n>=40'
         kinds = set(o[0] for o in ops)
@@ -524,7 +526,61 @@ class P(core.Prop):
             out.append(make_case(rng, k))
         return out
 
+    def exhaustive(self, tier):
+        if tier != 'thorough':
+            return [], None
+        out = []
+        for h in enumerate_histories((1,), (1,), 4):
+            evs = h['evs']
+            # where the first Circuit / Stream object exists, and where it is gone
+            tr = Tracker()
+            c_from = s_from = None
+            c_gone = s_gone = None
+            for i, e in enumerate(evs):
+                tr.event(e)
+                if e[0] == 'c' and c_from is None:
+                    c_from = i + 1
+                if e[0] == 's' and s_from is None:
+                    s_from = i + 1
+                if c_from is not None and c_gone is None and not tr.cobjs[0]['alive']:
+                    c_gone = i + 1
+                if s_from is not None and s_gone is None and not tr.sobjs[0]['alive']:
+                    s_gone = i + 1
+
+            def build(inserts, pre):
+                ops = []
+                for i in range(len(evs) + 1):
+                    ops.extend(x for pos, x in inserts if pos == i)
+                    if i < len(evs):
+                        ops.append(['ev', evs[i]])
+                return {'cons': [], 'pre': pre, 'snap': [], 'ops': ops, 'tags': ['exhaustive']}
+            # one listener change at every position (a second listener is there from the start)
+            for pos in range(len(evs) + 1):
+                out.append(build([(pos, ['acl', 1])], [['acl', 0], ['asl', 0]]))
+                out.append(build([(pos, ['asl', 1])], [['acl', 0], ['asl', 0]]))
+            # one wait at every position where its object exists, the acknowledgement at every later position
+            for kind, start, gone in (('wb', c_from, None), ('wc', c_from, None), ('cc', c_from, c_gone), ('sc', s_from, s_gone)):
+                if start is None:
+                    continue
+                for pos in range(start, len(evs) + 1):
+                    if kind in ('cc', 'sc'):
+                        if gone is not None and pos >= gone:
+                            continue          # close after gone: the open findings (corpus witnesses)
+                        for ack in range(pos, len(evs) + 1):
+                            out.append(build([(pos, [kind, 0, 1]), (ack, ['ack'])], [['acl', 0], ['asl', 0]]))
+                    else:
+                        out.append(build([(pos, [kind, 0, 1])], [['acl', 0], ['asl', 0]]))
+        return out, ('every legal history of exactly 4 events over 1 circuit id x 1 stream id (C07 alphabet), each with '
+                     'two pre-registered listeners, crossed with (a) one more global circuit / stream listener added at every '
+                     'position, (b) one when_built / when_closed / Circuit.close / Stream.close on the first object at every '
+                     'position where it exists and is not gone, the acknowledgement of a close at every later position')
+
     def shrink_candidates(self, case):
+        ops = case['ops']
+        # the shortest failing prefix first; then ddmin chunks; then single operations (removing an event
+        # renumbers the objects created after it: such candidates mostly come back as VSkip and are ignored)
+        for k in range(1, len(ops)):
+            yield dict(case, ops=ops[:k])
         if case['pre']:
             yield dict(case, pre=[])
         if case['cons']:
@@ -532,10 +588,14 @@ class P(core.Prop):
         for name in ('ops', 'snap'):
             l = case[name]
             size = len(l) // 2
-            while size >= 1:
+            while size >= 2:
                 for start in range(0, len(l), size):
                     yield dict(case, **{name: l[:start] + l[start + size:]})
                 size //= 2
+        for name in ('ops', 'snap'):
+            l = case[name]
+            for i in range(len(l) - 1, -1, -1):
+                yield dict(case, **{name: l[:i] + l[i + 1:]})
 
     finding_preds = {
         'stream_close_after_gone': lambda c, o: close_after_gone(c, False),
